@@ -114,12 +114,16 @@ def simulate_fifo_supply(jobs, sigma):
     return resp
 
 
-def check_timer_legal(callbacks, releases, sigma, trace, i):
+def check_timer_legal(callbacks, releases, sigma, trace, i, all_others=False):
     """executable rendering of `SupplyTimerLegal` (lean/RTA/RTA/Lemmas/TimerSound.lean) for the
     analysed timer `i`: checks a trace [(slot, callback, release of the served instance)] of the
     executor model against the five clauses; returns the list of violated clauses (empty = legal).
     Instances are identified by (callback, release, k-th instance with that release)."""
-    hp = {k for k, c in enumerate(callbacks) if c["kind"] == "T" and c["prio"] < callbacks[i]["prio"] and k != i}
+    if all_others:
+        # polling-point callbacks and chains: every other callback interferes
+        hp = {k for k in range(len(callbacks)) if k != i}
+    else:
+        hp = {k for k, c in enumerate(callbacks) if c["kind"] == "T" and c["prio"] < callbacks[i]["prio"] and k != i}
     horizon = len(sigma)
     # instances in release order per callback; the executor serves them FIFO per callback
     inst = []          # (cb, rel)
@@ -158,8 +162,8 @@ def check_timer_legal(callbacks, releases, sigma, trace, i):
                 if kj != i and kj not in hp and any(x in pending for x in rel_inst):
                     bad.add("prioOther")
                 if kj == i:
-                    if any(inst[x][0] in hp for x in pending):
-                        bad.add("prioOwn.hp")
+                    if not all_others and any(inst[x][0] in hp for x in pending):
+                        bad.add("extra:timer_priority")   # not part of the Lean Spec (never needed by the proof)
                     if any(inst[x][0] == i and inst[x][1] < inst[j][1] for x in pending):
                         bad.add("prioOwn.fifo")
             svc[j] += 1
